@@ -41,6 +41,9 @@
   * `single_row_updates_match_source` — the mask and the update closure of `Bitfield::toggle`
     (orders 0..2) and the mask test of `Bitfield::is_zero` are re-derived from the Rust source on
     every run (`tools/rs2lean.py`, `Gen/Toggle.lean`) and proved equal to the model's.
+
+  * `conc_blocks_disjoint_with_tree_changes` — the same for threads that also call `change_tree`
+    (class changes, `Offline`).
 -/
 import LLFreeV.Props.C12
 import LLFreeV.Proofs.UpperInit
@@ -49,6 +52,7 @@ import LLFreeV.Proofs.OwnLowerThreads
 import LLFreeV.Proofs.OwnUpperThreads
 import LLFreeV.Props.C06
 import LLFreeV.Proofs.GenToggle
+import LLFreeV.Proofs.ConcChange
 namespace LLFree.C01
 open LLFree
 
@@ -226,5 +230,31 @@ theorem single_row_updates_match_source (bits sh : Nat) (hb : bits ≤ 64) (hs :
     Gen.B.isZeroRow e mask = decide ((e &&& mask) = 0) :=
   ⟨GenTree.toggleMask_eq bits sh hb hs, GenTree.toggleSmall_eq e mask expected, GenTree.isZeroMask_eq bits sh hb hs,
     GenTree.isZeroRow_eq e mask⟩
+
+/-- **Blocks never overlap, also while trees are changed concurrently**: threads run public calls and
+    `change_tree` calls (class changes, `Offline`) from any contents of the volatile arrays; in every
+    state of every schedule the holdings are pairwise disjoint, marked allocated and inside the managed
+    range, and a finished thread holds exactly the valid aligned blocks its calls returned and it has
+    not freed. -/
+theorem conc_blocks_disjoint_with_tree_changes (c : Cfg) (ok : GeomOk16 c.geom) (m : Mem) (inv : LowerInv c m)
+    (n : Nat) (cmds : Nat → List CCmd) (sched : List Nat) (hsched : ∀ k ∈ sched, k < n) :
+    ∃ ghs, ConcFacts c.geom c.frames (concRun sched (m, fun k => Th.at (runUC c (cmds k) ⟨[], []⟩))).1 ghs ∧
+      (∀ k, k < n → match ((concRun sched (m, fun k => Th.at (runUC c (cmds k) ⟨[], []⟩))).2 k).step
+            (concRun sched (m, fun k => Th.at (runUC c (cmds k) ⟨[], []⟩))).1 with
+        | .done held => ghs k = ghOf c.geom held ∧ HeldOkL c.geom held
+        | _ => True) := by
+  have okg := ok.toGeomOk
+  have hhf : Huge.isHuge c.geom.hugeFrames = false := isHuge_of_le ok _ (Nat.le_refl _)
+  have I0 := LInv.init_gen ok m inv n false (PostLU c) (fun k => runUC c (cmds k) ⟨[], []⟩)
+    (fun k => runUC_safe ok (cmds k) ⟨[], []⟩ ⟨trivial, (fun b hb => by cases hb), trivial⟩)
+  obtain ⟨ghs, I⟩ := LInv.run okg hhf sched hsched m _ _ I0
+  refine ⟨ghs, I.facts okg, ?_⟩
+  intro k hk
+  have := I.step okg hhf k hk
+  cases hs : ((concRun sched (m, fun k => Th.at (runUC c (cmds k) ⟨[], []⟩))).2 k).step
+      (concRun sched (m, fun k => Th.at (runUC c (cmds k) ⟨[], []⟩))).1 with
+  | done a => rw [hs] at this; exact this
+  | dead s => trivial
+  | step t' m'' a => trivial
 
 end LLFree.C01
